@@ -181,7 +181,8 @@ Answer(m, fl, x, y) ==
 \* In default mode the remembered field list ignores fields the first key did not have: also a memory
 \* effect.  A step is "uniform" if it meets no kind mismatch and no key field outside the field list.
 IgnoredFields(fl, x, y) == {f \in Fields : (x[f] # "miss" \/ y[f] # "miss") /\ ~\E n \in DOMAIN fl : fl[n] = f}
-Uniform(a, x, y) == a.mism = {} /\ (Mode = "default" => IgnoredFields(a.fl, x, y) = {})
+Uniform(a, x, y) == \/ Semantics = "dynamic"             \* no memory, nothing to mismatch
+                    \/ a.mism = {} /\ (Mode = "default" => IgnoredFields(a.fl, x, y) = {})
 
 FreshMem  == [f \in Fields |-> "unset"]
 FreshFlds == IF Mode = "indexspec" THEN AllFields ELSE NoFlds
